@@ -357,10 +357,15 @@ func runLife(tr *Tracer, cur *int64, scn *lifeScn) {
 				return "pkg", Ev{"val": v}
 			})
 			settle()
-		case "send":
+		case "send", "sendbig":
+			cmd := "select 1"
+			if op.Op == "sendbig" {
+				// a message of several packets: the first ones go out while the package is still being queued
+				cmd = "select '" + strings.Repeat("x", 1500) + "'"
+			}
 			r.start("send", op, func(ctx context.Context) (string, Ev) {
 				before := atomic.LoadInt64(&r.wrote)
-				err := ch.SendPackage(ctx, &tds.LanguagePackage{Cmd: "select 1"})
+				err := ch.SendPackage(ctx, &tds.LanguagePackage{Cmd: cmd})
 				return lifeOutcome(err), Ev{"wrote": int(atomic.LoadInt64(&r.wrote) - before)}
 			})
 			settle()
@@ -608,6 +613,8 @@ func lifeMain(args []string) error {
 			scns = append(scns, lifeScn{K: k, Answers: true, Chan: 1, Extra: 2, Ops: []lifeOp{{Op: "peer", N: 1}, {Op: "failwrite"}, {Op: "connclose"}, {Op: "next"}, {Op: "next"}, {Op: "send"}}})
 			scns = append(scns, lifeScn{K: k, Answers: true, Chan: 1, SlowFirst: 200, Ops: []lifeOp{{Op: "send"}, {Op: "close"}, {Op: "next"}}})
 			scns = append(scns, lifeScn{K: k, Answers: true, Chan: 0, SlowFirst: 200, Ops: []lifeOp{{Op: "send"}, {Op: "connclose"}}})
+			scns = append(scns, lifeScn{K: k, Answers: true, Chan: 1, SlowFirst: 200, Ops: []lifeOp{{Op: "sendbig"}, {Op: "close"}, {Op: "next"}}})
+			scns = append(scns, lifeScn{K: k, Answers: true, Chan: 0, SlowFirst: 200, Ops: []lifeOp{{Op: "sendbig"}, {Op: "connclose"}, {Op: "send"}}})
 			// sends with cancelled contexts
 			scns = append(scns, lifeScn{K: k, Answers: true, Ops: []lifeOp{{Op: "send", Ctx: "cancelled"}, {Op: "send"}, {Op: "send", Ctx: "cancelled"}}})
 		}
